@@ -13,7 +13,7 @@ from jax import random as jr
 from jaxsmt import concrete, core, solve, stubs
 from jaxsmt.core import Check, conj, disj, implies, neg
 from jaxsmt.interp import Interp, arr0, kind
-from jaxsmt.ops import F32, RNE, FPOps, isconc
+from jaxsmt.ops import F32, RNE, FPOps, Unsupported, isconc
 from jaxsmt.trace import explore, trace
 
 from lerax.space import Box, Dict, Discrete, MultiBinary, MultiDiscrete, Tuple
@@ -961,7 +961,120 @@ def check_box_eq(ck, shape):
             "isinstance dispatch; no array values involved")
 
 
+# ===================================================================== Box.__hash__ agrees with Box.__eq__ (the real method body run on symbolic array proxies)
+class SymBytes:
+    """result of .tobytes() on a symbolic float32 array: the IEEE-754 bit patterns of its elements, in order"""
+
+    def __init__(self, bits, shape):
+        self.bits, self.shape = list(bits), tuple(shape)
+
+
+class SymArr:
+    """stand-in for a float32 array attribute (low / high) while the REAL __hash__ body runs: element-wise IEEE arithmetic with Python numbers and other
+    proxies, .tobytes() -> SymBytes; anything else the body might do with an array raises (-> inconclusive, never a wrong verdict)"""
+
+    def __init__(self, o, elems):
+        self.o, self.e = o, np.asarray(elems, dtype=object)
+
+    shape = property(lambda self: self.e.shape)
+    ndim = property(lambda self: self.e.ndim)
+    size = property(lambda self: self.e.size)
+    dtype = np.dtype(np.float32)
+
+    def _bin(self, other, f, swap=False):
+        oe = other.e if isinstance(other, SymArr) else np.full(self.e.shape, self.o.lift(np.float32(other), np.float32), dtype=object)
+        out = np.empty(self.e.shape, dtype=object)
+        for i in np.ndindex(*self.e.shape):
+            out[i] = f(oe[i], self.e[i]) if swap else f(self.e[i], oe[i])
+        return SymArr(self.o, out)
+
+    def __add__(self, other): return self._bin(other, self.o.add)
+    def __radd__(self, other): return self._bin(other, self.o.add, swap=True)
+    def __sub__(self, other): return self._bin(other, self.o.sub)
+    def __rsub__(self, other): return self._bin(other, self.o.sub, swap=True)
+    def __mul__(self, other): return self._bin(other, self.o.mul)
+    def __rmul__(self, other): return self._bin(other, self.o.mul, swap=True)
+    def __neg__(self): return SymArr(self.o, np.vectorize(self.o.neg, otypes=[object])(self.e))
+    def __pos__(self): return self
+    def ravel(self): return SymArr(self.o, self.e.reshape(-1))
+    flatten = ravel
+    def reshape(self, *shape): return SymArr(self.o, self.e.reshape(*shape))
+    def tobytes(self): return SymBytes([z3.fpToIEEEBV(self.o.zf(x)) for x in self.e.reshape(-1)], self.e.shape)
+
+    def __array__(self, *a, **k):
+        raise Unsupported("Box.__hash__ converts a bound to a NumPy array: not modelled")
+
+    def __jax_array__(self):
+        raise Unsupported("Box.__hash__ passes a bound to a jax function: not modelled")
+
+    def __iter__(self):
+        raise Unsupported("Box.__hash__ iterates over a bound: not modelled")
+
+
+def hash_key_of(box_cls, o, low, high):
+    """run the real `box_cls.__hash__` body with `self.low` / `self.high` replaced by proxies and the builtin `hash` capturing its argument"""
+    import types
+    captured = []
+
+    def capture(x):
+        captured.append(x)
+        return 0
+    f = box_cls.__hash__
+    g = dict(f.__globals__)
+    g["hash"] = capture
+    f2 = types.FunctionType(f.__code__, g, f.__name__, f.__defaults__, f.__closure__)
+
+    class Proxy:
+        pass
+    pr = Proxy()
+    pr.low, pr.high = SymArr(o, low), SymArr(o, high)
+    pr.shape = tuple(np.asarray(low, dtype=object).shape)
+    f2(pr)
+    if len(captured) != 1:
+        raise Unsupported(f"Box.__hash__ calls hash() {len(captured)} times")
+    return captured[0]
+
+
+def same_key(x, y):
+    if isinstance(x, tuple) and isinstance(y, tuple):
+        return conj([same_key(a, b) for a, b in zip(x, y)]) if len(x) == len(y) else False
+    if isinstance(x, SymBytes) and isinstance(y, SymBytes):
+        return conj([a == b for a, b in zip(x.bits, y.bits)]) if len(x.bits) == len(y.bits) else False
+    if isinstance(x, (SymBytes, SymArr)) or isinstance(y, (SymBytes, SymArr)):
+        raise Unsupported("Box.__hash__ hashes something other than bytes of the bounds")
+    return x == y
+
+
+def check_box_hash(ck, shape):
+    a, b = Box(jnp.zeros(shape), jnp.ones(shape)), Box(jnp.zeros(shape), jnp.ones(shape))
+    paths = explore(eq_fn, a, b, argnames=["a", "b"], label="Box.__eq__")
+    first = next(tr for _, tr, _ in paths if tr is not None)
+    it = fp_interp()
+    S = first.symbols(it)
+    assume = [z3.Not(z3.fpIsNaN(e)) for n in ("a_low", "a_high", "b_low", "b_high") for e in S[n].reshape(-1)]
+    ka, kb = hash_key_of(Box, it.o, S["a_low"], S["a_high"]), hash_key_of(Box, it.o, S["b_low"], S["b_high"])
+    same = same_key(ka, kb)
+    goals = []
+    for dec, tr, exc in paths:
+        if exc is not None or tr.out_static[0] is not True:
+            continue
+        o = tr.run(it, S)
+        conds = [o[n][()] for n in tr.out_names][:len(dec)]
+        goals.append(implies(conj([c if d else neg(c) for c, d in zip(conds, dec)]), same))
+
+    def rp(res, first=first, S=S):
+        (a_c, b_c), _ = model_args(first, S, res)
+        eq, ha, hb = (a_c == b_c), hash(a_c), hash(b_c)
+        return (eq is True and ha != hb), {"a": repr(a_c), "b": repr(b_c), "a == b": repr(eq), "hash(a)": ha, "hash(b)": hb,
+                                           "low_bits": [np.asarray(x.low, np.float32).tobytes().hex() for x in (a_c, b_c)], "high_bits": [np.asarray(x.high, np.float32).tobytes().hex() for x in (a_c, b_c)]}
+    ck.prove(f"Box.eq_implies_same_hash@Box{shape}", assume, conj(goals), replay=rp)
+    ck.witness(f"witness.Box.equal_boxes_exist@Box{shape}", assume + [conj([z3.fpEQ(x, y) for p_, q_ in (("a_low", "b_low"), ("a_high", "b_high")) for x, y in zip(S[p_].reshape(-1), S[q_].reshape(-1))])])
+
+
 def sec_box_eq(ck):
+    for shape in [(), (2,)]:
+        with ck.section(f"Box.__hash__ {shape}"):
+            check_box_hash(ck, shape)
     for shape in ([(), (2,)] if not ck.thorough else [(), (2,), (2, 2), (4,)]):
         with ck.section(f"Box.__eq__ {shape}"):
             check_box_eq(ck, shape)
@@ -1040,7 +1153,7 @@ def main():
                         "sample(): every combination of finite/infinite bound per element, finite bounds symbolic reals with low <= high",
              mask="Discrete mask with at least one allowed index")
     ck.stub(*stubs.STUB_NOTES)
-    ck.out("Box.__hash__ (bytes of concrete arrays): CrossHair cannot execute jnp/NumPy array code symbolically (it aborts inside JAX), so it is not claimed; Box.__eq__ IS claimed (path-forking trace)",
+    ck.out("Box.__hash__ beyond `equal boxes hash equal` (decided by running the real method body on symbolic array proxies: arithmetic with Python numbers and .tobytes(), bytes = IEEE bit patterns; any other use of the bounds makes the obligation inconclusive); hash collisions between unequal boxes are allowed",
            "Gymnasium round trip gym_space_to_lerax_space(lerax_to_gym_space(s)) == s and Dict key order: runs Gymnasium/NumPy C code on concrete values; CrossHair only realises the inputs (enumeration), so it is not claimed",
            "float32 rounding and overflow inside Box.sample() (decided over the reals per boundedness class) and overflow of low+high in Box.canonical() (finite bounds limited to 2^126)",
            "subnormal float32 values (XLA on CPU flushes them to zero): Box bounds in canonical() are zero, normal or infinite; contains is decided in IEEE semantics",
